@@ -501,6 +501,12 @@ theorem cInbox_cons (i : Nat) (m : FMsg) (ms : List FMsg) : cInbox i (m :: ms) =
 theorem cInbox_append (i : Nat) (a b : List FMsg) : cInbox i (a ++ b) = cInbox i a + cInbox i b := by
   simp [cInbox, List.countP_append]
 
+theorem cEnv_foldl_dropMsg (i : Nat) (inbox : List FMsg) (e : Env) :
+    cEnv i (inbox.foldl Env.dropMsg e) = cEnv i e + cInbox i inbox := by
+  induction inbox generalizing e with
+  | nil => simp [cInbox]
+  | cons m ms ih => rw [List.foldl_cons, ih, cEnv_dropMsg, cInbox_cons i m ms]; omega
+
 theorem total_postStop (i : Nat) (w : W) : total i w.postStop = total i w := by
   unfold W.postStop
   simp only
@@ -528,19 +534,21 @@ theorem total_postStop (i : Nat) (w : W) : total i w.postStop = total i w := by
     induction pool with
     | nil => intro e; rfl
     | cons p ps ih => intro e; rw [List.foldl_cons, ih, cEnv_stop]
-  have h4 : ∀ (inbox : List FMsg) (e : Env), cEnv i (inbox.foldl Env.dropMsg e) = cEnv i e + cInbox i inbox := by
-    intro inbox
-    induction inbox with
-    | nil => intro e; simp [cInbox]
-    | cons m ms ih =>
-      intro e
-      rw [List.foldl_cons, ih, cEnv_dropMsg, cInbox_cons i m ms]; omega
   have h5 : cPool i ([] : List WP) = 0 := rfl
   have hsup : ∀ (e : Env) (s : List Nat), cEnv i { e with sup := s } = cEnv i e := fun _ _ => rfl
   simp only [total, h5, cj_nil]
-  rw [hsup, h4, cEnv_emit _ _ _ rfl, h3, h2, h1]
-  simp only [cInbox, List.countP_nil]
+  rw [hsup, h3, h2, h1]
   omega
+
+theorem total_tryFinishStop (i : Nat) (w : W) : total i w.tryFinishStop = total i w := by
+  unfold W.tryFinishStop
+  split
+  · have hsup : ∀ (e : Env) (s : List Nat), cEnv i { e with sup := s } = cEnv i e := fun _ _ => rfl
+    simp only [total]
+    rw [hsup, cEnv_foldl_dropMsg, cEnv_emit _ _ _ rfl]
+    simp only [cInbox, List.countP_nil]
+    omega
+  · rfl
 
 /-! ### the factory actor's loop -/
 
@@ -620,7 +628,8 @@ theorem total_runQ (i : Nat) (fuel : Nat) (w : W) : total i (W.runQ fuel w) = to
     | some w' => simp only; rw [ih, total_loopStep i w w' hl]
     | none =>
       simp only
-      have hs : total i { w with env := w.env.settle } = total i w := by
+      have hs : total i (W.tryFinishStop { w with env := w.env.settle }) = total i w := by
+        rw [total_tryFinishStop]
         simp only [total, cEnv_settle]
       split
       · exact hs
